@@ -300,14 +300,30 @@ fn main() {
             if doc.aborts_process {
                 // execute the run, named by its seed, in a child: it is expected to kill its process
                 use std::os::unix::process::ExitStatusExt;
-                let status = std::process::Command::new(std::env::current_exe().expect("current exe"))
+                let mut child = std::process::Command::new(std::env::current_exe().expect("current exe"))
                     .arg("runseed")
                     .arg(&doc.engine)
                     .arg(&doc.property)
                     .arg(if doc.thorough { "thorough" } else { "quick" })
                     .arg(doc.run_seed.to_string())
-                    .status()
+                    .spawn()
                     .expect("spawn child");
+                // (a run that hung is given the same patience as in the batch, then killed)
+                let stall_s: f64 = std::env::var("VERIF_STALL_S").ok().and_then(|s| s.parse().ok()).unwrap_or(if doc.thorough { 600.0 } else { 240.0 });
+                let started = std::time::Instant::now();
+                let status = loop {
+                    if let Ok(Some(st)) = child.try_wait() {
+                        break st;
+                    }
+                    if started.elapsed().as_secs_f64() > stall_s {
+                        let _ = child.kill();
+                        let _ = child.wait();
+                        println!("violation: property={} rule={} detail=the run made no progress for {stall_s} s again and was killed", doc.property, doc.rule);
+                        println!("VIOLATION property={} replay={}", doc.property, path.display());
+                        std::process::exit(1);
+                    }
+                    std::thread::sleep(std::time::Duration::from_millis(100));
+                };
                 match status.signal() {
                     Some(sig) => {
                         println!("violation: property={} rule={} detail=the run killed its process again (signal {sig})", doc.property, doc.rule);
